@@ -3,12 +3,15 @@ import KyupyVerif.Model.DefText
 /-! Driver extension for C20: evaluates the routing model `Model/Def.lean` on an encoded `DefNet` / `DefWire`.
 
 Request  `def <cmd> <payload>`
-* wire   `layer:width:start;item;…`  layer percent-encoded; width `-` (None) or a natural number;
+* wire   `layer:width:start;item;…`  layer percent-encoded; width `-` (None) or `t<pct-encoded RAW token>` (`DefWire.width` is the
+         unconverted NUMBER token; the model decides where `int()` is applied and raises);
          start/point item `p,x,y[,ext]` with `*` for None; via `v,name[,orient]`; array `a,name,nx,ny,dx,dy`
 * net    wires joined by `|`; `.` = routed but no wire; `~` = no `routed` attribute
 * cmds   `wires` (demanded listing) · `wiresasis` (code as it is) · `wiresraw` (as it is, without the `int(None)` error) · `vias` · `wpoints` (`DefWire.wire_points`) ·
          `wvias` (`DefWire.vias`) · `resolve` (resolved wire points)
-Answer: dictionary `key=val&val|key=…` in insertion order (`.` when empty), `!attr` / `!type` for a raised exception;
+Answer: dictionary `key=val&val|key=…` in insertion order (`.` when empty), `!attr` / `!type` / `!value` for a raised exception
+(`!value`: `int(width)` of a LISTED wire raises ValueError), `!start`: outside the domain "first point of the wire explicit" — the real
+property returns a listing with `None` in it or raises TypeError (`Wire.wirePoints?` / `Wire.vias?` / `netVias?` / `netWiresR`);
 wire value `width@pt;pt`, via value `x,y,orient`. -/
 namespace KV.Drv.Def
 open KV.Def
@@ -43,18 +46,18 @@ def parseItem (s : String) : Item :=
   | ["a", n, nx, ny, dx, dy] => .arr (unpct n) nx.toNat! ny.toNat! dx.toInt! dy.toInt!
   | _ => default
 
-def parseWire (s : String) : Wire :=
+def parseWire (s : String) : DWire :=
   match s.splitOn ":" with
   | [l, w, its] =>
     match (its.splitOn ";").filter (· ≠ "") with
     | st :: rest =>
-      { layer := unpct l, width := if w == "-" then none else some w.toNat!,
+      { layer := unpct l, width := if w == "-" then none else some (unpct (w.drop 1).toString),
         start := match parseItem st with | .pt p => p | _ => default,
         rest := rest.map parseItem }
     | [] => default
   | _ => default
 
-def parseNet (s : String) : Option (List Wire) :=
+def parseNet (s : String) : Option (List DWire) :=
   if s == "~" then none else if s == "." then some []
   else some (((s.splitOn "|").filter (· ≠ "")).map parseWire)
 
@@ -84,15 +87,30 @@ def showItem : Item → String
   | .via n none => "v," ++ pct n
   | .via n (some o) => "v," ++ pct n ++ "," ++ pct o
   | .arr n nx ny dx dy => s!"a,{pct n},{nx},{ny},{dx},{dy}"
-def showWire (w : Wire) : String :=
-  s!"{pct w.layer}:{showWidth w.width}:{";".intercalate (("p," ++ showRPt w.start) :: w.rest.map showItem)}"
-def showNet : Option (List Wire) → String
+def showTok : Option String → String
+  | some t => "t" ++ pct t
+  | none => "-"
+def showWire (w : DWire) : String :=
+  s!"{pct w.layer}:{showTok w.width}:{";".intercalate (("p," ++ showRPt w.start) :: w.rest.map showItem)}"
+def showNet : Option (List DWire) → String
   | none => "~"
   | some [] => "."
   | some ws => "|".intercalate (ws.map showWire)
 
+/-- `DefNet.wires` of the raw records as the model sees it -/
+def ansWires (ws : List DWire) : String :=
+  match netWiresR ws with
+  | .error e => s!"!{e}"
+  | .ok d => showDict (fun e => s!"{showWidth e.1}@{";".intercalate (e.2.map showPt3)}") d
+/-- `DefNet.vias` of the raw records as the model sees it -/
+def ansVias (ws : List DWire) : String :=
+  match netViasR ws with
+  | none => "!start"
+  | some d => showDict showVia d
+
 /-! ### text level: `defparse <pct-encoded text>` → `syntax` | `<ok|raise> <tree> <nets>`; nets = `S:name=<net>` / `N:name=<net>` per special / regular net in file order,
-`!`-separated (`-` for none), `<net>` = the wires of all its wiring statements in the request format above (`?value`: a width token `int()` rejects); the tree is lark's parse tree with all
+`!`-separated (`-` for none), `<net>` = the wires of all its wiring statements in the request format above (raw width tokens), followed by
+`>` and the model's `DefNet.wires` outcome and `>` and its `DefNet.vias` outcome (answer format of `def wires` / `def vias`); the tree is lark's parse tree with all
 tokens kept (`keep_all_tokens=True`): `rule[child,child,..]`, leaves percent-encoded token texts -/
 namespace Text
 open KV.DefText
@@ -175,10 +193,15 @@ def handle (args : List String) : String :=
     | none => "syntax"
     | some f =>
       let nets := f.netsRouted.map fun (sp, name, r) =>
-        (if sp then "S:" else "N:") ++ Def.pct (String.ofList name) ++ "=" ++ (match r with | none => "?value" | some ws => Def.showNet (some ws))
+        (if sp then "S:" else "N:") ++ Def.pct (String.ofList name) ++ "=" ++ Def.showNet (some r) ++ ">" ++ Def.ansWires r ++ ">" ++ Def.ansVias r
       s!"{if f.ok then "ok" else "raise"} {file f} {if nets.isEmpty then "-" else "!".intercalate nets}"
   | _ => "bad-args"
 end Text
+
+/-- the legacy readings (`netWiresAsIs`, `netWiresRaw`: trees before the wildcard / regular-net repairs) converted the width of
+the listed wires in the same place -/
+def legacy (ws : List DWire) : Option (List Wire) :=
+  if ws.any (fun w => w.listed && w.widthVal.isNone) then none else some (ws.filterMap DWire.conv)
 
 def handle (cmd : String) (args : List String) : Option String :=
   if cmd == "defparse" then some (Text.handle args) else
@@ -187,26 +210,41 @@ def handle (cmd : String) (args : List String) : Option String :=
   | ["wires", n] =>
     match parseNet n with
     | none => some "."      -- demanded: a net without routing lists nothing
-    | some ws => some (showDict (fun e => s!"{showWidth e.1}@{";".intercalate (e.2.map showPt3)}") (netWires ws))
+    | some ws => some (ansWires ws)
   | ["wiresasis", n] =>
-    match netWiresAsIs (parseNet n) with
-    | .error e => some s!"!{e}"
-    | .ok d => some (showDict (fun e => s!"{showWidth e.1}@{";".intercalate (e.2.map showRPt)}") d)
+    match parseNet n with
+    | none => some "!attr"
+    | some ws =>
+      match legacy ws with
+      | none => some "!value"
+      | some ws =>
+        match netWiresAsIs (some ws) with
+        | .error e => some s!"!{e}"
+        | .ok d => some (showDict (fun e => s!"{showWidth e.1}@{";".intercalate (e.2.map showRPt)}") d)
   | ["wiresraw", n] =>
     match parseNet n with
     | none => some "."
-    | some ws => some (showDict (fun e => s!"{showWidth e.1}@{";".intercalate (e.2.map showRPt)}") (netWiresRaw ws))
+    | some ws =>
+      match legacy ws with
+      | none => some "!value"
+      | some ws => some (showDict (fun e => s!"{showWidth e.1}@{";".intercalate (e.2.map showRPt)}") (netWiresRaw ws))
   | ["vias", n] =>
     match parseNet n with
     | none => some "."
-    | some ws => some (showDict showVia (netViasD ws))
+    | some ws => some (ansVias ws)
   | ["viasasis", n] =>
-    match netViasAsIs (parseNet n) with
-    | .error e => some s!"!{e}"
-    | .ok d => some (showDict showVia d)
-  | ["wpoints", w] => some (showList ((parseWire w).wirePointsRaw.map showRPt))
-  | ["resolve", w] => some (showList ((parseWire w).wirePoints.map showPt3))
-  | ["wvias", w] => some (showDict showVia (parseWire w).viasD)
+    match parseNet n with
+    | none => some "!attr"
+    | some ws => some (ansVias ws)
+  | ["wpoints", w] => some (showList ((parseWire w).geom.wirePointsRaw.map showRPt))
+  | ["resolve", w] =>
+    match (parseWire w).geom.wirePoints? with
+    | some ps => some (showList (ps.map showPt3))
+    | none => some "!start"
+  | ["wvias", w] =>
+    match (parseWire w).geom.vias? with
+    | some d => some (showDict showVia d)
+    | none => some "!start"
   | _ => some "bad-def-op"
 
 end KV.Drv.Def
